@@ -342,8 +342,11 @@ class World:
             self.e.assume((st == -1) | ((st >= self.nlp) & (st <= self.nlp + 2)))
         return st
 
-    def _event(self, site: Optional[int]) -> None:
-        ok = self.moves > 0 and may_move(self.last_site, site)
+    def _event(self, site: Optional[int], slot: bool = False) -> None:
+        # The atomic step the source relies on (and that is checked against the real bytecode) is "check f_lasti, then
+        # read the slot": only a SLOT read is shielded from a move by atomic bytecode before it.  Every other read
+        # (f_lasti, stacktop, owner) may always be preceded by a move: nothing may depend on two such reads agreeing.
+        ok = self.moves > 0 and (not slot or may_move(self.last_site, site))
         self.last_site = site
         if ok and self._take_move(len(self.events)):
             self.moves -= 1
@@ -371,7 +374,7 @@ class World:
         return self.stacktop[self.epoch]
 
     def read_slot(self, i: int, site: Optional[int]) -> Any:
-        self._event(site)
+        self._event(site, slot=True)
         self.events.append(("slot", self.epoch, i))
         if i == self.null_index:
             raise ValueError("PyObject is NULL")
@@ -683,9 +686,9 @@ def fidelity() -> Optional[str]:
     frozen = []
     orig = w2._event
 
-    def spy(site: Optional[int]) -> None:
+    def spy(site: Optional[int], slot: bool = False) -> None:
         frozen.append(not may_move(w2.last_site, site))
-        orig(site)
+        orig(site, slot)
 
     w2._event = spy  # type: ignore[method-assign]
     real_inspect(w2, FakeFrame(w2, fr.f_code))
